@@ -33,5 +33,6 @@ def items_for(ctx, thorough):
 
 def run(ctx):
     items, nexh, nsim = items_for(ctx, ctx.tier == "thorough")
+    items += [(c, False, False) for c in sem.pinned_chains(ctx.prop) if (c, False, False) not in items]
     sem.shared_check(ctx, items,
                      lambda it, name: semgen.build_chain(it[0], name=name, src_in_go=it[1], sink_in_go=it[2]), nexh, nsim)
